@@ -328,8 +328,58 @@ def run(chk):
             if rng.chance(1, 8) and req["method"] in ("POST", "PUT"):
                 req["body"] = b""
                 req["chunked"] = [1]          # Transfer-Encoding: chunked with an empty body
+            if i % 8 == 5:
+                # a kept-alive connection across a key change (none -> K1, K1 -> K2, K2 -> none): every request is signed with the
+                # key in force when it is relayed, whatever key earlier requests on that connection were signed with
+                k1 = pipegen.KEY
+                k2 = ("99999999-8888-7777-6666-%012d" % i, "%064x" % (0xabcdef * (i + 1)))
+                keys = rng.pick([[None, k1], [k1, k2], [k1, k2, k1], [k2, None, k1]])
+                conn = None
+                for kk in keys:
+                    c2 = dict(case, env=dict(case["env"], key=kk), req=dict(case["req"]))
+                    chk.count("kept_connection_key_change_requests")
+                    try:
+                        o2 = runner.run_case(c2, conn=conn, keep_conn=True)
+                    except OSError:
+                        break
+                    if conn is not None and o2["resp"] is None and not o2["recs"]:
+                        runner.observations.remove(o2)
+                        chk.count("kept_connection_was_closed")
+                        break
+                    conn, o2["conn"] = o2["conn"], None
+                    if o2["resp"] is None or o2["resp"]["status"] >= 400 or \
+                            (e2e.hget(o2["resp"]["headers"], b"connection") or b"").lower() == b"close":
+                        break
+                if conn is not None:
+                    conn.close()
+                continue
             runner.run_case(case)
-        runner.finish(e2e_oracle_factory(pending))
+        # the host drops the kept upstream connection after a response; a further request on the same client connection is either
+        # not relayed at all or relayed signed like any other
+        orc = e2e_oracle_factory(pending)
+        for k in range(4 if chk.tier == "quick" else 40):
+            c1 = pipegen.gen_case(rng, callers, st, dest_label="ws", with_key=True)
+            c2 = pipegen.gen_case(rng, callers, st, dest_label="ws", with_key=True, spoof=rng.chance(1, 2))
+            for c_ in (c1, c2):
+                for ep in ("ws", "imds", "hostga"):
+                    c_["env"][ep] = None
+            c1["caller"] = callers.caller(0, "curl", True)
+            c1["req"] = {"method": "GET", "target": "/machine?comp=goalstate&first=%d" % k, "headers": [(b"Host", b"h")], "body": None, "chunked": None}
+            c2["env"] = c1["env"]
+            if c2["req"]["target"] == "/provision" or ".." in c2["req"]["target"]:
+                c2["req"]["target"] = "/machine?comp=goalstate&second=%d" % k
+
+            def after_close(chk_, o, m):
+                # a request that reached the host although the model expected a signature must carry one (the regular oracle skips
+                # unsigned requests only when no key is latched or the URL is exempt)
+                full = [r for r in o["recs"] if not r.get("partial")]
+                if m["kind"] == "forward" and m.get("signed") is not None:
+                    for r in full:
+                        if not [v for n, v in r["headers"] if n.lower() == b"x-ms-azure-host-authorization"]:
+                            chk_.violation("relayed request does not carry exactly one authorization header", pipe.Runner.describe(None, o), observed=[])
+                orc(chk_, o, m)
+            runner.run_after_host_close(c1, c2, after_close, chk.count)
+        runner.finish(orc)
         outs = vlib.run_driver([p[5] for p in pending]) if pending else []
         for (chk_, o, d, mac, key, line), mo in zip(pending, outs):
             s = mo.split(" ")[0]
